@@ -70,6 +70,18 @@ NOTES = {
     ("rpad", "raises", "empty-pad"): "see lpad.",
     ("substring", "value", "pos-0"): "Spark treats position 0 like 1; DuckDB's SUBSTRING(s, 0, n) counts a virtual position 0 and returns n-1 characters.",
     ("substr", "value", "pos-0"): "see substring.",
+    ("date_format", "value", "day-of-year"): "sqlglot's Spark->DuckDB time-format table has no entry for DDD (day of year): it is read as DD + D.",
+    ("date_format", "value", "fraction"): "the fraction field SSS is not translated (left as the text 'SSS'); DuckDB's specifier would be %g / %f.",
+    ("date_format", "value", "quoted-literal"): "quoted literal text ('T') keeps its quotes in the strftime format; Spark drops them.",
+    ("to_timestamp", "raises", "fraction"): "see date_format fraction: the untranslated 'SSS' makes STRPTIME fail.",
+    ("to_timestamp", "raises", "quoted-literal"): "see date_format quoted-literal: the quotes stay in the STRPTIME format and the parse fails.",
+    ("date_trunc", "raises", "unit-spelling"): "Spark accepts the unit spellings yyyy/yy/mm/mon/...; the unit is passed through verbatim and DuckDB only knows year/month/...",
+    ("trunc", "raises", "unit-spelling"): "see date_trunc.",
+    ("extract", "value", "unit-spelling"): "extract(SECOND ..) is a DECIMAL with the fraction in Spark (10.123456); DuckDB's EXTRACT(SECOND ..) is the whole second.",
+    ("regexp_replace", "value", "group-reference"): "Spark's replacement refers to groups as $1; DuckDB's REGEXP_REPLACE wants \\1 and copies '$1' literally.",
+    ("split_part", "value", "empty-delimiter"): "with an empty delimiter Spark returns the whole string as part 1; DuckDB splits into characters.",
+    ("sha2", "raises", "numBits-224"): "see sha2 numBits-512.", ("sha2", "raises", "numBits-384"): "see sha2 numBits-512.",
+    ("sha2", "raises", "numBits-512"): "sha2 raises ValueError for numBits other than 256/0; Spark supports 224/256/384/512.",
     ("spark-session", "Column.getItem"): "on a Spark-backed session the Column key is not shifted either: element_at(col, key) is 1-based.",
     ("spark-session", "array_position"): "the COALESCE(.., 0) guard is applied on Spark too: NULL array -> 0.",
     ("spark-session", "levenshtein"): "the CASE guard is applied on Spark too: NULL inputs -> -1.",
